@@ -289,13 +289,14 @@ Record safe_parts (s : schema) (env : bool) : Prop := mkSafe {
   sp_nodup : nodupb (rule_names s) = true;
   sp_struct : existsb (fun n => str_in n (struct_names env)) (rule_names s) = false;
   sp_fname : forallb (fun f => no_nul (fd_name f)) (sc_fields s) = true;
-  sp_sname : comment_safe (sc_name s) && (negb env || no_nul (py_upper (sc_name s) (sc_upper s))) = true;
+  sp_sname : no_nul (sc_name s) && (negb env || no_nul (py_upper (sc_name s) (sc_upper s))) = true;
   sp_regex : forallb (fun f => negb (is_regex_field f) || regex_field_ok (rule_names s ++ struct_names env) f) (sc_fields s) = true;
   sp_scope : forallb (fun f => match picked f with Some c => cst_scope_ok c | None => true end) (sc_fields s) = true }.
 
 Lemma safe_schema_parts s env : safe_schema s env = true -> safe_parts s env.
 Proof.
-  unfold safe_schema, schema_clauses. rewrite pin_field_name_escaped, pin_schema_name_escaped. cbn [name_lit_ok].
+  unfold safe_schema, schema_clauses. rewrite pin_field_name_escaped, pin_schema_name_escaped, pin_header_one_line.
+  cbn [name_lit_ok header_ok].
   intro H. apply N.eqb_eq in H.
   repeat (apply N.eq_add_0 in H; let H' := fresh "B" in destruct H as [H H']).
   apply bit_zero in H, B, B0, B1, B2, B3, B4.
